@@ -6,12 +6,11 @@
     [Display for Value] behind to_string/concat, [ValueDisplay] behind the text printers); the error bound of the
     sketch is [Generated.ckms_error]. *)
 From Coq Require Import List ZArith NArith Bool String.
-From AG Require Import Generated Str F64 Sexp Regex_entry Ckms Ckms_entry DateFmt DatePaths DateFmt_entry.
+From AG Require Import Generated Str F64 Sexp Regex_entry RegexStage_entry Ckms Ckms_entry DateFmt DatePaths DateFmt_entry.
 Import ListNotations.
 Open Scope string_scope.
 
-(** the sketch's error bound as the source writes it (a decimal literal) *)
-Definition ckms_error_f : f64 := f_of_dec false (fst Generated.ckms_error) (snd Generated.ckms_error).
+(** the sketch's error bound as the source writes it (a decimal literal): [Ckms.ckms_error_f] *)
 
 Definition datepath_case (c : sexp) : sexp :=
   match c with
@@ -47,7 +46,8 @@ Definition ckms_case2 (c : sexp) : sexp :=
 Definition run_case2 (c : sexp) : sexp :=
   match c with
   | SList (h :: _) =>
-      if is_sym h "rx" || is_sym h "rxline" then rx_case c
+      if is_sym h "rxstage" then rxstage_case c
+      else if is_sym h "rx" || is_sym h "rxline" || is_sym h "rxspan" then rx_case c
       else if is_sym h "ckms" then ckms_case2 c
       else if is_sym h "datefmt" then datefmt_case c
       else if is_sym h "datepath" then datepath_case c
